@@ -34,6 +34,11 @@ func vfPlace(o *Output, pos int, param, service []string) (paramReferrer, servic
 		o.Params[0].DependsOn = append(o.Params[0].DependsOn, param...)
 		return vfQuote("%" + o.Params[0].Name + "%"), ""
 	case 1:
+		if o.Services[0].Value != "" {
+			// a value service has no constructor arguments: the reference goes to a call instead
+			o.Services[0].Calls = append(o.Services[0].Calls, Call{Method: "M", Args: []Arg{a}})
+			break
+		}
 		o.Services[0].Args = append(o.Services[0].Args, a)
 	case 2:
 		o.Services[0].Calls = append(o.Services[0].Calls, Call{Method: "M", Args: []Arg{a}})
@@ -51,10 +56,20 @@ func vfOutput() (Output, []string, []string) {
 	p0, p1 := vfStr("p0", ln), vfStr("p1", ln)
 	s0, s1 := vfStr("s0", ln), vfStr("s1", ln)
 	vfAssume(p0 != p1 && s0 != s1)
+	// every list a reference can sit in starts with an argument that refers to
+	// nothing: a reference is found wherever it stands, not only in first place
+	lit := Arg{Code: "dependencyValue(1)"}
 	o := Output{
 		Params:     []Param{{Name: p0}, {Name: p1, Code: "todo"}},
-		Services:   []Service{{Name: s0}, {Name: s1, Todo: true}},
-		Decorators: []Decorator{{Tag: vfStr("dtag", ln), Decorator: "D"}},
+		Services:   []Service{{Name: s0, Calls: []Call{{Method: "L", Args: []Arg{lit}}}, Fields: []Field{{Name: "L", Value: lit}}}, {Name: s1, Todo: true}},
+		Decorators: []Decorator{{Tag: vfStr("dtag", ln), Decorator: "D", Args: []Arg{lit}}},
+	}
+	// the referrer is created by a constructor (then it may have arguments) or by a value
+	if vfBool("byValue") {
+		o.Services[0].Value = "V{}"
+	} else {
+		o.Services[0].Constructor = "New"
+		o.Services[0].Args = []Arg{lit}
 	}
 	// 0, 1 or 2 declared parameters; 1 or 2 declared services (the first is the referrer)
 	np, ns := vfChoice("params", 3), 1+vfChoice("services", 2)
